@@ -412,6 +412,35 @@ def hints_namespace(prog: Program, rep: Report, rule: str):
     rep.check(not bad, rule, gh.qualname, gh.loc, "string annotations are evaluated per defining class (no explicit namespace is passed to typing.get_type_hints)", "typing.get_type_hints is given an explicit globalns/localns: with one, the annotations of *every* class on the MRO are evaluated in that single namespace, so a member inherited from a base in another module is resolved against the subclass's module (a same-named class there silently replaces the declared one)", detail="hints-namespace")
 
 
+def hints_stripped(prog: Program, rep: Report, rule: str):
+    """The member hints the library works with carry no `Annotated[...]` wrapper: no predicate of typelib.py.inspection looks
+    through one (ClassVar inside it is not recognised, origin() of it is not the member's class), so typing.get_type_hints must
+    not be asked to keep them (include_extras) where member hints are produced."""
+    gh = prog.function(f"{C.INSP}.get_type_hints")
+    calls = []
+    for p in P.paths_of(prog, gh):
+        for tm in p.all_terms():
+            calls += [s for s in T.walk(tm) if T.is_call_to(s, "typing.get_type_hints", "typing_extensions.get_type_hints")]
+    if not calls:
+        rep.undecided(rule, gh.qualname, gh.loc, "no call to typing.get_type_hints found", detail="hints-stripped")
+        return
+    keeps = [c for c in calls if (dict(c[3]).get("include_extras") or (c[2][3] if len(c[2]) > 3 else ("const", False))) != ("const", False)]
+    # does any unwrapping predicate know the wrapper?
+    knows = False
+    for fn in ("origin", "unwrap", "should_unwrap", "isclassvartype"):
+        f = prog.functions.get(f"{C.INSP}.{fn}")
+        if f is None:
+            continue
+        for p in P.paths_of(prog, f):
+            for tm in p.all_terms():
+                if T.contains(tm, lambda x: x[0] == "ref" and x[1].endswith(".Annotated")):
+                    knows = True
+    if keeps and knows:
+        rep.held(rule, gh.qualname, gh.loc, "Annotated wrappers are kept, and the unwrapping predicates refer to typing.Annotated (their treatment is not judged here)", detail="hints-stripped", nontrivial=False)
+        return
+    rep.check(not keeps, rule, gh.qualname, gh.loc, "member hints are produced without their Annotated[...] wrappers", "member hints keep their Annotated[...] wrappers (include_extras), and nothing in the library looks through one: `limit: Annotated[ClassVar[int], 'doc']` is no longer recognised as a class variable (iteritems yields it as a field), and a member `Annotated[int, ...]` is no longer routed as an int", detail="hints-stripped")
+
+
 def hints_module_owner(prog: Program, rep: Report, rule: str):
     """A string annotation found in a signature is looked up in the module of the object that *owns* the signature.  For an
     alias (tuple['UserId', int], whose made-up signature carries its arguments) `__module__` is the module of the origin
@@ -422,19 +451,23 @@ def hints_module_owner(prog: Program, rep: Report, rule: str):
         return
     obj = ("param", hs.params[0])
     mods = []
+    guarded_mods = []  # (module term, the path established that obj is not an alias)
     for p in P.paths_of(prog, hs):
+        atoms = T.derive_atoms(p.guards())
+        not_alias = any((not val) and (T.is_call_to(a, "typing.get_origin", f"{C.INSP}.issubscriptedgeneric", f"{C.INSP}.isgeneric", f"{C.INSP}.origin") and a[2][:1] == (obj,)) for a, val in atoms)
         for tm in p.all_terms():
             for x in T.walk(tm):
                 if T.is_call_to(x, "typelib.py.refs.forwardref"):
                     m = dict(x[3]).get("module")
                     if m is not None:
                         mods.append(m)
+                        guarded_mods.append((m, not_alias))
     if not mods:
         rep.held(rule, hs.qualname, hs.loc, "no module is passed for string annotations of a signature", detail="hints-module-owner", nontrivial=False)
         return
     own = lambda y: (T.is_call_to(y, "builtins.getattr") and len(y[2]) >= 2 and y[2][1] == ("const", "__module__") and T.contains(y[2][0], lambda z: z == obj)) or (y[0] == "attr" and y[2] == "__module__" and T.contains(y[1], lambda z: z == obj))  # noqa: E731
     alias_test = lambda y: T.is_call_to(y, "typing.get_origin", f"{C.INSP}.issubscriptedgeneric", f"{C.INSP}.isgeneric") and y[2][:1] == (obj,)  # noqa: E731
-    bad = [m for m in mods if T.contains(m, own) and not T.contains(m, alias_test)]
+    bad = [m for m, not_alias in guarded_mods if T.contains(m, own) and not T.contains(m, alias_test) and not not_alias]
     # ... and for a class the owner is the function that carries the signature (an inherited __init__ lives in the module of
     # the base class); annotations that are objects containing references (Optional["Node"]) are taken evaluated in that
     # function's namespace (typing.get_type_hints(carrier)), never left to be looked up from whoever calls the library
@@ -539,6 +572,7 @@ def run(prog: Program, rep: Report, tier: str):
     r11_7(prog, rep)
     r11_8(prog, rep)
     r11_6(prog, rep)
+    c09.leaf_test_object(prog, rep, "R11.6")
     sub = Report("C11", tier)
     sub.rule("R09.4", "", 0)
     c09.r09_4(prog, sub)
